@@ -1351,8 +1351,8 @@ def labels_of(trace):
     return [t for t in trace.split(",") if t.startswith("B")]
 
 # constants of the proved bound (Props/C13.v: C13_find, C13_finder, C13_rfind):
-#   building + one search:  steps <= K * (|h| + 1) + 6 * |x| + 11,  K = 4905 forward, 70 reverse
-C13_K_FWD = 4905
+#   building + one search:  steps <= K * (|h| + 1) + 6 * |x| + 11,  K = 4906 forward, 70 reverse
+C13_K_FWD = 4906
 C13_K_REV = 70
 
 def c13_bound(kv, n, m):
